@@ -277,6 +277,93 @@ def tla_trace(kind, mode, ops):
     return {"kind": kind, "mode": mode, "ops": out}
 
 
+def observer_ownership(rep, tier):
+    """Observers.tla: every action sequence (attach / detach / re-assign file / close observer / close manager)
+    enumerated by TLC is replayed on real TextObserver / ObserverManager objects; handle states must match."""
+    import io as _io
+    import re
+    import sys
+
+    from quansino.io.core import TextObserver
+    from quansino.io.file import ObserverManager
+    from tlc import tla_value_to_py
+
+    tmp = tempfile.mkdtemp(prefix="c16obs_")
+    try:
+        dump = os.path.join(tmp, "obs.dump")
+        r = run_tlc("Observers", "MC_Observers.cfg", workers=8, env={"OBS_LEN": "3" if tier == "quick" else "4"}, extra=["-dump", dump], timeout=900)
+        if not r.ok:
+            if r.invariant_violated or r.property_violated:
+                rep.violation("model:Observers", "TLC: a property of Observers.tla is violated", {"tlc": r.out[-2000:]})
+            else:
+                rep.error(f"TLC failed on Observers: {r.out[-1200:]}")
+            return 0, 0, 0
+        text = open(dump).read()
+    finally:
+        shutil.rmtree(tmp, ignore_errors=True)
+    n = 0
+    real_stdout = sys.stdout
+    for block in text.split("\n\n"):
+        if "hist" not in block:
+            continue
+        st = {}
+        for m in re.finditer(r"/\\ (\w+) = (.*?)(?=\n/\\ |\Z)", block, re.S):
+            st[m.group(1)] = tla_value_to_py(m.group(2).strip())
+        hist = st["hist"]
+        if not hist:
+            continue
+        n += 1
+        fake_std = _io.StringIO()
+        sys.stdout = fake_std
+        try:
+            files = {"f1": _io.StringIO(), "f2": _io.StringIO(), "std": fake_std}
+            obs = {"o1": TextObserver(files["f1"]), "o2": TextObserver(fake_std)}
+            man = ObserverManager()
+            refused = False
+            try:
+                for a in hist:
+                    refused = False
+                    if a[0] == "attach":
+                        man.attach_observer(a[1], obs[a[2]])
+                    elif a[0] == "detach":
+                        man.detach_observer(a[1], close=(a[2] == "close"))
+                    elif a[0] == "setfile":
+                        try:
+                            obs[a[1]].file = files[a[2]]
+                        except ValueError:
+                            refused = True
+                    elif a[0] == "close":
+                        obs[a[1]].close()
+                    else:
+                        man.close()
+            except Exception as ex:  # noqa: BLE001
+                sys.stdout = real_stdout
+                rep.violation(f"observers:raise:{hist[-1][0]}:{type(ex).__name__}", f"observer ownership: {hist} raised {ex!r}", {"hist": hist})
+                continue
+        finally:
+            sys.stdout = real_stdout
+        rep.count(("observers", json.dumps(hist)), nontrivial=len(hist) > 1)
+        for f in ("f1", "f2", "std"):
+            if files[f].closed == st["open"][f]:
+                what = "closed" if files[f].closed else "left open"
+                rep.violation(f"observers:{f if f == 'std' else 'file'}-{what.replace(' ', '-')}:after-{hist[-1][0]}", f"observer ownership: after {hist} the handle {f} is {what}; Observers.tla says open = {st['open'][f]}", {"hist": hist})
+                break
+        else:
+            if refused != st["refused"]:
+                rep.violation("observers:closed-file-linking", f"observer ownership: after {hist} linking a closed file was {'refused' if refused else 'accepted'}, the specification says refused = {st['refused']}", {"hist": hist})
+            elif not st["refused"]:
+                for o in ("o1", "o2"):
+                    if obs[o].file is not files[st["file"][o]]:
+                        rep.violation("observers:wrong-handle", f"observer ownership: after {hist} observer {o} does not hold handle {st['file'][o]}", {"hist": hist})
+                        break
+        for f in files.values():
+            try:
+                f.close()
+            except Exception:  # noqa: BLE001
+                pass
+    return n, r.distinct, r.generated
+
+
 def run(tier: str) -> int:
     rep = Report("C16", tier, "fault_enumeration")
     warnings.simplefilter("ignore")
@@ -429,6 +516,10 @@ def run(tier: str) -> int:
                 rep.violation(f"crash:{bad[0]}:before-{nxt}-after-{prev}:{kind}", f"REAL crash: {bad[1]} (mode '{mode}', process died before op {n} '{nxt}', {done} calls completed)", {"kind": kind, "mode": mode, "op": n, "survivor_tail": surv[-200:]})
     finally:
         shutil.rmtree(tmp, ignore_errors=True)
+    nobs, so, to = observer_ownership(rep, tier)
+    states += so
+    trans += to
+    rep.add(observer_ownership_sequences=nobs)
     rep.add(states=states, transitions=trans, traces_validated_against_impl=len(recs), evaluations=ncrash + nkill, file_operations_recorded=nops, crash_contents_judged=ncrash, real_crashes=nkill, exhaustive=True,
             rule="crash points: between every two consecutive file operations (write / flush / seek / truncate) of every Logger, TrajectoryObserver and RestartObserver call of grand-canonical runs whose serialized state grows and shrinks, modes 'a' and 'w'; for each crash point every prefix of the unflushed buffer (chunk boundaries and three byte offsets inside each chunk) is a surviving content; distinct = (file kind, mode, seed) logs + real kills; each content is judged by the real readers, the op logs by TLC (Files_Trace.tla), and sampled crash points by real forked processes dying before the operation")
     rep.assumptions += ["CPython may flush its buffer at any time, never reorders: survivors = disk + a prefix of the buffer", "observers receive user-owned handles on real files (the documented IO argument); handles are opened with default buffering",
